@@ -84,10 +84,15 @@ Example ex_json_safe : forall tn, In tn wit_sweep -> t_meta tn <> MOpaque.
 Proof. intros tn [<-|[]]. discriminate. Qed.
 Example ex_opaque_when_repaired :
   r_out (execute_traced (data + ctx) (data + ctx) (fun d => inl d) (fun c => inr c) (fun x => x)
-           (mkFacts true true true true true true true true true true) ex_e1 wit_opaque s0)
+           (mkFacts true true true true true true true true true true false) ex_e1 wit_opaque s0)
   = TPlain (impl_run (nodes_of wit_opaque) s0).
 Proof. vm_compute. reflexivity. Qed.
 
+(* the defects found by this check are repaired on the current tree (fix commits): hard obligations *)
+Lemma now_metadata_json_safe : metadata_json_safe = true.
+Proof. reflexivity. Qed.
+Lemma now_pipeline_id_stable : pipeline_id_stable = true.
+Proof. reflexivity. Qed.
 Print Assumptions C10_trace_transparent.
 Print Assumptions C10_trace_transparent_refuted_when.
 Print Assumptions C10_trace_transparent_partial.
